@@ -221,6 +221,23 @@ impl AstLowering {
 
         // First pass: collect class declarations, trait decls, and newtype ctor selection.
         for decl in &program.declarations {
+            // Type names are known before any body is lowered: a constructor call that precedes the declaration in the file
+            // must be recognised as such whatever the capitalisation of the name (`pair(b=2, a=1)` is not a plain call).
+            match &decl.node {
+                ast::Declaration::Model(m) => {
+                    self.struct_names.insert(m.name.clone(), IrType::Struct(m.name.clone()));
+                }
+                ast::Declaration::Class(c) => {
+                    self.struct_names.insert(c.name.clone(), IrType::Struct(c.name.clone()));
+                }
+                ast::Declaration::Newtype(n) => {
+                    self.struct_names.insert(n.name.clone(), IrType::Struct(n.name.clone()));
+                }
+                ast::Declaration::Enum(e) => {
+                    self.enum_names.insert(e.name.clone(), IrType::Enum(e.name.clone()));
+                }
+                _ => {}
+            }
             if let ast::Declaration::Class(ref c) = decl.node {
                 self.class_decls.insert(c.name.clone(), c.clone());
             }
